@@ -292,7 +292,27 @@ func genPolygonF(r *rand.Rand, t tmsInfo, ids []int, allowOutside bool) (fgeom, 
 	mx, my := (t.maxX-t.minX)*0.1, (t.maxY-t.minY)*0.1
 	cx := t.minX + mx + r.Float64()*(t.maxX-t.minX-2*mx)
 	cy := t.minY + my + r.Float64()*(t.maxY-t.minY-2*my)
-	switch k := r.Intn(20); {
+	switch k := r.Intn(22); {
+	case k >= 20: // already ON the pixel grid of the deepest requested tile matrix (data that went through the tool
+		// before), a rectangle with 2-14 rectangular holes: the result for that tile matrix is the polygon itself
+		cen := func(i, j int64) [2]float64 {
+			return [2]float64{t.minX + (float64(i)+0.5)*pxDeep, t.minY + (float64(j)+0.5)*pxDeep}
+		}
+		i0 := int64((cx - t.minX) / pxDeep)
+		j0 := int64((cy - t.minY) / pxDeep)
+		nh := 2 + r.Intn(4)
+		if r.Intn(4) == 0 {
+			nh = 12 + r.Intn(3)
+		}
+		w := int64(4*nh + 2)
+		shell := [][2]float64{cen(i0, j0), cen(i0+w, j0), cen(i0+w, j0+8), cen(i0, j0+8)}
+		rings := [][][2]float64{shell}
+		for h := 0; h < nh; h++ {
+			a := i0 + 2 + int64(4*h)
+			hh := int64(2 + r.Intn(4))
+			rings = append(rings, [][2]float64{cen(a, j0+2), cen(a, j0+2+hh), cen(a+2, j0+2+hh), cen(a+2, j0+2)})
+		}
+		return fgeom{Kind: 3, Parts: [][][][2]float64{rings}}, "on the pixel grid, with holes"
 	case k < 7: // a blob of a few pixels of some requested level
 		return fgeom{Kind: 3, Parts: [][][][2]float64{{blob(r, cx, cy, pxCoarse*(0.5+6*r.Float64()))}}}, "blob"
 	case k < 10: // far below a pixel: collapses everywhere
